@@ -162,7 +162,11 @@ func (r *Run) CheckWiring(pop []Comp, points []PointRes) []Complaint {
 func (r *Run) CheckIdentity(pop []Comp) []string {
 	var out []string
 	seen := map[string]any{}
+	published := r.Published()
 	for ni, n := range r.Nodes {
+		if published != nil && !published[n.DisplayName()] {
+			continue // never (successfully) created: what a failed attempt left in its fields is not "held"
+		}
 		for _, slot := range SortedSlots(&r.Sc.Nodes[ni]) {
 			refs, _ := r.SlotRefs(n, slot)
 			for _, ref := range refs {
@@ -224,6 +228,21 @@ func (r *Run) LitPointRes(pop []Comp, obj any) []PointRes {
 	for _, pt := range LiteralPoints(h, obj) {
 		out = append(out, PointRes{Node: -1, Slot: pt.Field, Pt: pt, Res: Resolve(pop, pt),
 			Val: reflect.ValueOf(obj).Elem().FieldByName(pt.Field), HolderName: name})
+	}
+	return out
+}
+
+// Published returns the names whose creation completed successfully according to the registry trace
+// (nil when the run has no tracer).
+func (r *Run) Published() map[string]bool {
+	if r.Tracer == nil {
+		return nil
+	}
+	out := map[string]bool{}
+	for _, e := range r.Tracer.Events() {
+		if e.Op == "create" && e.Phase == "ret" && e.Err == "" {
+			out[e.Name] = true
+		}
 	}
 	return out
 }
